@@ -49,6 +49,13 @@ CHECKS["C17"] = dict(
     design="4 (C17)",
 )
 
+CHECKS["C20"] = dict(
+    technique="Coq proof (fold invariant over the history of registrations) over a hand-written Gallina model of the CSV recorder (rows on disk + writer buffer) + differential correspondence on the bytes of the real file re-read after every registration",
+    text="6 theorems (Props/C20.v, closed under the global context): for every column configuration, both recording modes and every history of registrations: after construction and after every register the writer's buffer is empty and the file is the header followed by one complete row per recorded individual (all, or only those flagged best); the file at any earlier point is a prefix of the file at any later point; the k-th fitness column holds the k-th component of that row's individual and every extra field its own callback. Tied to /repo by ~120 generated configurations per run (1-4 objectives, extra fields, three construction routes incl. SimpleGP.build_recorder and a real tracker), the file being parsed through an independent handle after construction and after every registration and compared with the model inside Coq.",
+    note="PARTIAL: survival of flushed bytes across a process kill is the OS's contract, and the instant between writerow and flush inside one register() call is not modelled. Trusted: Coq kernel + vm_compute; hand-written model; harness; csv module quoting.",
+    design="4 (C20)",
+)
+
 ALL = [f"C{n:02d}" for n in range(1, 21)]
 
 m = {
